@@ -253,6 +253,13 @@ func c20Config(c *fw.Ctx, mon *c20Monitor, sg c20Sig, decl []int, bmin, bmax int
 	wantName := strings.ReplaceAll(strings.ToLower(sg.ID), "_", "-")
 	if override {
 		wantName = "ovr-" + strings.ToLower(sg.ID)
+		// override names are the embedding program's choice (operators such as %): names that contain what a format
+		// string would read as a verb must come through registration, calls, count errors and panic wrapping unharmed
+		// (seeded C20-m14)
+		if h := len(sg.ID) + len(decl)*7 + bmin*3 + bmax; h%3 == 1 {
+			wantName = []string{"%", "%s", "rem%", "a%wb", "100%d", "%!v(", "%%"}[h%7] + wantName
+			c.Count("override_names_containing_a_percent_sign", 1)
+		}
 	}
 	p, site, msg, st := fw.Guard(func() {
 		if override {
